@@ -13,7 +13,8 @@ THEOREMS = ["Drand.Beacon." + t for t in [
     "append_inv", "flush_inv", "step_inv3", "run_inv3", "toy3_recoverSpec",
     "c03_distinct", "c03_duplicate_ignored", "c03_malformed_ignored",
     "tie_processPartial", "tie_aggregator_partial", "tie_aggregator_init", "tie_window", "tie_processPartial_guards",
-    "tie_aggregator_guards", "tie_live_group_switch"]]
+    "tie_aggregator_guards", "tie_live_group_switch"]] + \
+    ["Drand.Net.Reshare." + t for t in ['tie_group_node_lookup', 'c03_member_lookup_exact', 'c03_hole_is_not_member', 'c03_admitted_is_member', 'c03_nonmember_index_never_counts', 'c07_old_epoch_never_counts', 'c07_held_members_run', 'c07_beacon_needs_new_members', 'tie_aggregator_threshold_in_loop']]
 TRUSTED = ["Lean 4 kernel; axioms per theorem under coverage.axioms",
            "cryptography is an oracle record; explicit hypotheses: RecoverSpec (if kyber's Recover returns a signature then at least t of the supplied partials verify "
            "under the supplied polynomial at pairwise distinct indices), SignedOnly + CollisionFreeOn (only for the wrong-round / wrong-previous-signature lemmas)",
